@@ -365,6 +365,11 @@ namespace T
    struct rule_action;
    struct rule_action0;
    template< typename A > using w_if_apply = p::if_apply< A, rule_action >;
+   // action< NewAction, R > and control< NewControl, R >: switch the family / control for the sub-tree only
+   template< typename Rule > struct act_odd;
+   template< typename Rule > struct mon2;
+   template< typename A > using w_action_sw = p::action< act_odd, A >;
+   template< typename A > using w_control_sw = p::control< mon2, A >;
    template< typename A > using w_action_alt = p::action< p::nothing, A >;
    template< typename A > using w_control_alt = p::control< p::normal, A >;
    template< typename A > using w_raw1 = p::raw_string< '[', '=', ']', A >;
@@ -555,6 +560,8 @@ namespace T
    U1( ENABLE, G_ACT, w_enable ) \
    U1( DISABLE, G_ACT, w_disable ) \
    U1( IF_APPLY, G_ACT, w_if_apply ) \
+   U1( ACTION_SW, G_ACT, w_action_sw ) \
+   U1( CONTROL_SW, G_STATE, w_control_sw ) \
    A0( APPLY, G_ACT, ( p::apply< rule_action > ) ) \
    A0( APPLY0, G_ACT, ( p::apply0< rule_action0 > ) ) \
    U1( STATE, G_STATE, w_state )
